@@ -27,14 +27,33 @@ type c04Shape struct {
 	methods []security.AuthMethod
 	resumed bool
 	noReply bool // resumed by a scripted requester that asks for no reply: cleartext in ONE direction only
+	encC    security.SecurityLevel // the two sides' encryption levels; "" = REQUIRED
+	encS    security.SecurityLevel
+}
+
+func (sh c04Shape) enc() (c, s security.SecurityLevel) {
+	c, s = sh.encC, sh.encS
+	if c == "" {
+		c = security.SecurityRequired
+	}
+	if s == "" {
+		s = security.SecurityRequired
+	}
+	return
 }
 
 var c04Shapes = []c04Shape{
-	{"noauth", security.SecurityNever, []security.AuthMethod{mCTB}, false, false},
-	{"claimtobe", security.SecurityRequired, []security.AuthMethod{mCTB}, false, false},
-	{"token", security.SecurityRequired, []security.AuthMethod{mTOK}, false, false},
-	{"resumed", security.SecurityRequired, []security.AuthMethod{mCTB}, true, false},
-	{"resumed-noreply", security.SecurityRequired, []security.AuthMethod{mCTB}, true, true},
+	{"noauth", security.SecurityNever, []security.AuthMethod{mCTB}, false, false, "", ""},
+	{"claimtobe", security.SecurityRequired, []security.AuthMethod{mCTB}, false, false, "", ""},
+	{"token", security.SecurityRequired, []security.AuthMethod{mTOK}, false, false, "", ""},
+	{"resumed", security.SecurityRequired, []security.AuthMethod{mCTB}, true, false, "", ""},
+	{"resumed-noreply", security.SecurityRequired, []security.AuthMethod{mCTB}, true, true, "", ""},
+	// encryption not REQUIRED by anybody: where the connection still ends up protected the
+	// whole cleartext negotiation is bound all the same
+	{"claimtobe-enc-optional", security.SecurityRequired, []security.AuthMethod{mCTB}, false, false, security.SecurityOptional, security.SecurityOptional},
+	{"claimtobe-enc-preferred", security.SecurityRequired, []security.AuthMethod{mCTB}, false, false, security.SecurityPreferred, security.SecurityOptional},
+	{"token-enc-optional", security.SecurityRequired, []security.AuthMethod{mTOK}, false, false, security.SecurityOptional, security.SecurityPreferred},
+	{"noauth-enc-optional", security.SecurityNever, []security.AuthMethod{mCTB}, false, false, security.SecurityOptional, security.SecurityOptional},
 }
 
 type c04Fault struct {
@@ -62,8 +81,9 @@ type c04Run struct {
 // c04Exec runs one handshake of the shape with an optional fault.
 func c04Exec(sh c04Shape, flt *c04Fault) *c04Run {
 	run := &c04Run{}
-	cc := baseCfg(sh.auth, security.SecurityRequired, sh.methods, []security.CryptoMethod{security.CryptoAES}, false)
-	sc := baseCfg(sh.auth, security.SecurityRequired, sh.methods, []security.CryptoMethod{security.CryptoAES}, true)
+	encC, encS := sh.enc()
+	cc := baseCfg(sh.auth, encC, sh.methods, []security.CryptoMethod{security.CryptoAES}, false)
+	sc := baseCfg(sh.auth, encS, sh.methods, []security.CryptoMethod{security.CryptoAES}, true)
 	cc.Command = 5
 	cc.PeerName = "<" + hsServerAddr + ">"
 	var r0sid string
@@ -79,7 +99,7 @@ func c04Exec(sh c04Shape, flt *c04Fault) *c04Run {
 		cc2 := *cc
 		cc2.ECDHPublicKey = ""
 		cc = &cc2
-		sc = baseCfg(sh.auth, security.SecurityRequired, sh.methods, []security.CryptoMethod{security.CryptoAES}, true)
+		sc = baseCfg(sh.auth, encS, sh.methods, []security.CryptoMethod{security.CryptoAES}, true)
 		defer func() {
 			security.GetSessionCache().Invalidate(r0.S.Neg.SessionId)
 		}()
@@ -243,7 +263,7 @@ func c04Layout(sh c04Shape) (c2s, s2c []int, err error) {
 func C04Plan() *vlib.Plan {
 	p := &vlib.Plan{
 		Property: "C04", Level: "fault_enumeration",
-		Rule:   "E-FAULT: for each handshake shape (no authentication, CLAIMTOBE, TOKEN, resumed session, session resumed by a scripted requester that asks for no reply - cleartext in one direction only; both sides REQUIRE encryption) a pre-pass records the cleartext frame layout; then one fault per run through a relay between two real endpoints: every byte offset of every cleartext frame (header and payload) x substitutes (the end-of-message flag byte x 7 substitute values), an empty frame (flag 0 / 1) inserted before every frame, every frame removed / duplicated / split at its midpoint, every adjacent same-direction pair merged. Application phase: three messages each way and receivers that carry on after a receive error. Oracle: fault applied and any application message accepted by either side => violation. Non-trivial = the fault was applied to a live frame (distinct (shape, direction, frame, fault) by construction).",
+		Rule:   "E-FAULT: for each handshake shape (no authentication, CLAIMTOBE, TOKEN, resumed session, session resumed by a scripted requester that asks for no reply - cleartext in one direction only; both sides REQUIRE encryption; plus CLAIMTOBE / TOKEN / no authentication with encryption OPTIONAL or PREFERRED on both sides, where only data accepted on a stream that IS protected counts) a pre-pass records the cleartext frame layout; then one fault per run through a relay between two real endpoints: every byte offset of every cleartext frame (header and payload) x substitutes (the end-of-message flag byte x 7 substitute values), an empty frame (flag 0 / 1) inserted before every frame, every frame removed / duplicated / split at its midpoint, every adjacent same-direction pair merged. Application phase: three messages each way and receivers that carry on after a receive error. Oracle: fault applied and any application message accepted by either side => violation. Non-trivial = the fault was applied to a live frame (distinct (shape, direction, frame, fault) by construction).",
 		Assume: []string{"frame layout of the cleartext path is value-independent (lengths recorded in the pre-pass; offsets beyond a live frame are counted as skipped)", "session ids / ECDH keys / nonces are random per run: faults are addressed by position, not value"},
 	}
 	p.Gen = func(tier string, yield func(vlib.Case)) {
@@ -279,7 +299,14 @@ func C04Plan() *vlib.Plan {
 					return res
 				}
 				res.Nontrivial = 1
-				accepted := len(r.S.AppGot) > 0 || len(r.C.AppGot) > 0
+				// the property speaks of connections that end up protected: what an endpoint took on a
+				// stream that is in the clear (possible only where nobody REQUIRES encryption) is not its subject
+				srvProt := r.S.Stream != nil && r.S.Stream.IsEncrypted()
+				cliProt := sh.noReply || (r.C.Stream != nil && r.C.Stream.IsEncrypted())
+				accepted := (len(r.S.AppGot) > 0 && srvProt) || (len(r.C.AppGot) > 0 && cliProt)
+				if (len(r.S.AppGot) > 0 && !srvProt) || (len(r.C.AppGot) > 0 && !cliProt) {
+					res.Outcome("accepted-on-a-cleartext-connection(not-C04)")
+				}
 				hsOK := r.C.Err == nil && r.S.Err == nil
 				// A duplicate of the LAST cleartext frame of a direction lands after that
 				// direction's negotiation bytes: both endpoints consumed identical
